@@ -360,8 +360,8 @@ def _is_mt(e):
     return not isinstance(e, (ScalarValue, Zero, Identity, ufl.classes.MultiIndex))
 
 
-def evaluate(expr, ctx: Ctx, tol: Tol) -> EV:
-    """Evaluate a scalar UFL expression (lowered integrand) at ctx's points -> EV of shape [P,I,J]."""
+def evaluate(expr, ctx: Ctx, tol: Tol, comp=()) -> EV:
+    """Evaluate component `comp` of a lowered UFL expression at ctx's points -> EV of shape [P,I,J]."""
     it = Interp(ctx, tol)
     memo = it.memo
 
@@ -626,7 +626,7 @@ def evaluate(expr, ctx: Ctx, tol: Tol) -> EV:
             return EV(np.where(c, a.v, b.v), np.where(c, a.e, b.e))
         raise Unsupported(f"operator {type(e).__name__}")
 
-    out = ev(expr, (), {})
+    out = ev(expr, tuple(comp), {})
     return out
 
 
@@ -757,3 +757,78 @@ def form_reference(
         A = np.diagonal(A).copy()
         E = np.diagonal(E).copy()
     return A, E
+
+
+# ---------------------------------------------------------------------------------------
+# expressions
+# ---------------------------------------------------------------------------------------
+
+
+def lower_expression(expr, scalar_type="float64"):
+    """UFL preprocessing of a point-evaluated expression (algebra, derivatives, pull-backs, geometry)."""
+    from ufl.algorithms.apply_algebra_lowering import apply_algebra_lowering
+    from ufl.algorithms.apply_derivatives import apply_derivatives
+    from ufl.algorithms.apply_function_pullbacks import apply_function_pullbacks
+    from ufl.algorithms.apply_geometry_lowering import apply_geometry_lowering
+    from ufl.algorithms.remove_complex_nodes import remove_complex_nodes
+
+    keep = (Jacobian,)
+    e = apply_algebra_lowering(expr)
+    e = apply_derivatives(e)
+    e = apply_function_pullbacks(e)
+    e = apply_geometry_lowering(e, keep)
+    e = apply_derivatives(e)
+    e = apply_geometry_lowering(e, keep)
+    e = apply_derivatives(e)
+    if not np.issubdtype(np.dtype(scalar_type), np.complexfloating):
+        e = remove_complex_nodes(e)
+    return e
+
+
+def expression_reference(expr, points, cellname, coef_data, const_data, x, entity=0, on_facet=False, scalar_type="float64",
+                         tol: Tol | None = None, point_map=None):
+    """Reference values A[point][component][argument dof] (+ error bounds) of a UFL expression.
+
+    points: reference points on the cell, or (on_facet) on the reference facet `entity`;
+    point_map: optional symmetry of the reference facet applied to the points first.
+    """
+    tol = tol or Tol(scalar_type)
+    cm = np.issubdtype(np.dtype(scalar_type), np.complexfloating)
+    low = lower_expression(expr, scalar_type)
+    args = ufl.algorithms.extract_arguments(low)
+    if len(args) > 1:
+        raise Unsupported("more than one argument")
+    ndofs = args[0].ufl_function_space().ufl_element().dim if args else None
+    pts = np.asarray(points, dtype=np.float64)
+    tdim = len(basix.topology(CT[cellname])) - 1
+    ctx = Ctx()
+    ctx.width = 1
+    ctx.itype = "expression"
+    ctx.complex = cm
+    ctx.entity = (entity, entity)
+    ctx.w = coef_data
+    ctx.c = const_data
+    ctx.x = x
+    ctx.weights = np.ones(pts.shape[0])
+    if on_facet:
+        p = pts if point_map is None else point_map(pts)
+        ctx.X = [map_to_sub_entity(cellname, tdim - 1, entity, p)]
+    else:
+        ctx.X = [pts]
+    shape = tuple(low.ufl_shape)
+    ncomp = int(np.prod(shape)) if shape else 1
+    P = pts.shape[0]
+    full = (P, ncomp) + ((ndofs,) if ndofs is not None else ())
+    A = np.zeros(full, dtype=np.complex128 if cm else np.float64)
+    E = np.zeros(full)
+    for k, comp in enumerate(np.ndindex(*shape) if shape else [()]):
+        val = evaluate(low, ctx, tol, comp=comp)
+        v = np.broadcast_to(val.v, (P, ndofs if ndofs is not None else 1, 1))[:, :, 0]
+        e = np.broadcast_to(val.e, (P, ndofs if ndofs is not None else 1, 1))[:, :, 0]
+        if ndofs is None:
+            A[:, k] = v[:, 0]
+            E[:, k] = e[:, 0]
+        else:
+            A[:, k, :] = v
+            E[:, k, :] = e
+    return A, E, low
